@@ -127,7 +127,12 @@ def rule_e(ctx):
     from . import c05
     c05.recv_awaits_handler(ctx)
 
+def rule_f(ctx):
+    from . import c03
+    c03.rule_b(ctx)
+
 RULES = [
+    ("C02.f", "every connection enqueues inside the future that the port awaits", rule_f),
     ("C02.e", "the receiver processes popped messages one at a time, to completion", rule_e),
     ("C02.a", "a send completes only after the push succeeded", rule_a),
     ("C02.b", "port sends are awaited in place", rule_b),
